@@ -108,6 +108,16 @@ add("X4_21", p, f"mixed radix 2^4*3^21*{c}+1 (small subgroup of more than 2^32 e
 # top limb exactly 2^63 (the first modulus shape without a spare bit): 2^(64N-1) + c
 for n in (2, 3, 4, 6):
     add(f"Q{n}", nextprime(2**(64 * n - 1)), f"{n} limbs, smallest prime above 2^(64*{n}-1): top limb exactly 2^63, no spare bit")
+# two-adicity of 64 and more (p = 1 mod 2^64: the low limb of p-1 is zero): c*2^s+1 on 2..4 limbs, Stark252
+for s_, limbs_ in [(64, 2), (70, 2), (100, 2), (130, 3), (192, 4)]:
+    c = 3 if s_ != 192 else (1 << 59) + 17  # Stark252 = 2^251 + 17*2^192 + 1
+    while True:
+        p = c * (1 << s_) + 1
+        if isprime(p) and c % 2 == 1:
+            break
+        c += 2
+    assert nlimbs(p) == limbs_, (s_, nlimbs(p))
+    add(f"A{s_}", p, f"two-adicity {s_} ({c}*2^{s_}+1)")
 # moduli whose low limb(s) are all ones: (p-1)/2 + 1 and p + 1 carry across limbs
 add("NistP256", 2**256 - 2**224 + 2**192 + 2**96 - 1, "NIST P-256 base: low 96 bits all ones, no spare bit")
 add("C448", 2**448 - 2**224 - 1, "curve448 base: low 224 bits all ones, no spare bit")
